@@ -388,6 +388,34 @@ Definition bad_real_rows : list (string * string) :=
   map (fun r => (snd (fst (m_fn r)), match m_t r with RDev n _ _ => n | RTm n _ _ => n | RFun _ n _ _ => n | _ => "" end))
       (filter (fun r => negb (row_ok r)) api_table).
 
+(* the Device entries / Tensor methods / operands / composites whose DATA the instance computes
+   through the kernel index programs (the core family of Tensor/GraphInst.v) *)
+Definition core_entries : list string :=
+  ["id"; "negate_fw"; "copy_tensor"; "transpose_fw"; "batch_sum_fw"; "Tensor::flatten"; "Tensor::reshape";
+   "add_fw"; "subtract_fw"; "multiply_fw"; "add_scalar_fw"; "subtract_scalar_r_fw"; "subtract_scalar_l_fw";
+   "multiply_scalar_fw"; "matmul_fw"; "add_const_fw"; "subtract_const_r_fw"; "subtract_const_l_fw"; "multiply_const_fw";
+   "flip_fw"; "sum_fw"; "permute_dims_fw"; "batch_pick_fw"; "broadcast_fw"; "batch_slice_fw"; "pick_fw"; "slice_fw";
+   "concat_fw"; "batch_concat_fw"; "conv2d_fw"; "split"; "batch::split"; "new_tensor_by_vector"; "new_tensor_by_constant"].
+Definition reach_name (r : reach) : string :=
+  match r with
+  | RDev name _ _ => name
+  | RTm m _ _ => "Tensor::" ++ m
+  | RId _ => "id"
+  | RFun ns name _ _ => if seqb ns "functions::batch" then "batch::" ++ name else name
+  | RBad _ => ""
+  end.
+Definition row_core (r : mrow) : bool :=
+  match m_kind r with KOp => mem (reach_name (m_t r)) core_entries | KThrow => false end.
+Definition fn_label (r : mrow) : string :=
+  let '(ns, name, tys) := m_fn r in
+  (if seqb ns "functions::batch" then "batch::" else if seqb ns "functions::random" then "random::" else "") ++ name.
+Fixpoint dedup_str (l : list string) : list string :=
+  match l with [] => [] | x :: r => if mem x r then dedup_str r else x :: dedup_str r end.
+(* the user-level functions all of whose rows are in the core family / some row of which is not *)
+Definition core_functions : list string := dedup_str (map fn_label (filter row_core api_table)).
+Definition abstract_functions : list string :=
+  dedup_str (map fn_label (filter (fun r => match m_kind r with KOp => negb (row_core r) | KThrow => false end) api_table)).
+
 Section Real.
   Context {R : Type}.
   Variables (rO rI : R) (radd rmul rsub : R -> R -> R) (ropp : R -> R).
@@ -632,10 +660,10 @@ Section Real.
   (* the entry name under which [core_data] knows a reach form, and its actual arguments *)
   Definition reach_call (r : reach) : option (string * list ex) :=
     match r with
-    | RDev name _ dargs => Some (name, dargs)
-    | RTm m recv args => Some ("Tensor::" ++ m, recv :: args)
-    | RId e => Some ("id", [e])
-    | RFun ns name _ args => Some (if seqb ns "functions::batch" then "batch::" ++ name else name, args)
+    | RDev _ _ dargs => Some (reach_name r, dargs)
+    | RTm _ recv args => Some (reach_name r, recv :: args)
+    | RId e => Some (reach_name r, [e])
+    | RFun _ _ _ args => Some (reach_name r, args)
     | RBad _ => None
     end.
 
@@ -661,6 +689,25 @@ Section Real.
                 | None => []
                 end
     | None => []
+    end.
+
+  (* ---- the core family: the entries whose data [core_data] computes, and well-typed environments *)
+  Definition ty_ok (ty : string) (v : V tensor attr) : bool :=
+    if seqb ty "X" || seqb ty "Parameter&" then match v with VT _ => true | _ => false end
+    else if seqb ty "vec<X*>" then match v with VL _ => true | _ => false end
+    else if seqb ty "float" then match v with VA (AF _) => true | _ => false end
+    else if seqb ty "u32" then match v with VA (AU _) => true | _ => false end
+    else if seqb ty "i32" then match v with VA (AI _) => true | _ => false end
+    else if seqb ty "vec<u32>" then match v with VA (AUs _) => true | _ => false end
+    else if seqb ty "vec<float>" then match v with VA (AFs _) => true | _ => false end
+    else if seqb ty "Shape" then match v with VA (ASh _ _) => true | _ => false end
+    else if seqb ty "Device*" then match v with VA (ADev _) => true | _ => false end
+    else false.
+  Fixpoint env_typed (tys : list string) (env : tenv) : bool :=
+    match tys, env with
+    | [], [] => true
+    | ty :: tys', v :: env' => ty_ok ty v && env_typed tys' env'
+    | _, _ => false
     end.
 
   (* ---- the three runs of a program at the real instance (Tables/ApiFacts.v at api_table) *)
